@@ -1,6 +1,7 @@
 package main
 
 import (
+	"os"
 	"fmt"
 	"go/ast"
 	"go/constant"
@@ -350,6 +351,13 @@ func (vc *VC) evalIndex(st *State, x *ast.IndexExpr, commaOk bool) []Term {
 		mi := vc.mapInfo(base.T)
 		idx = vc.coerce(idx, vc.ts.apply(mt.Key()))
 		v := vc.mapLookup(st, mi, base.S, idx.S)
+		if os.Getenv("GOVC_NO_MLK") == "" && vc.pure == 0 && len(v.S) > 120 && !reBoundVar.MatchString(v.S) {
+			// name the looked-up value: keeps the terms of later statements small
+			nv := vc.fresh("mlk", v.T)
+			nv.KT, nv.VT, nv.KS, nv.VS = v.KT, v.VT, v.KS, v.VS
+			st.assume(eq(nv.S, v.S))
+			v = nv
+		}
 		if commaOk {
 			return []Term{v, boolTerm(vc.mapHas(st, mi, base.S, idx.S))}
 		}
